@@ -589,6 +589,7 @@ impl Sparse<f64> {
         eta = -1.0;
         theta = 0.0;
 
+        let mut fresh = true; // the recurrences start ( or restart ) with this iteration
         for i in 1..=max_iter {
             if rho == 0.0 { return Err( resid ); }
             if xi == 0.0 { return Err( resid ); }
@@ -604,7 +605,7 @@ impl Sparse<f64> {
             y_tld = y.clone();
             z_tld = z.clone(); // Could have preconditioner here
 
-            if i > 1 {
+            if !fresh {
                 p = y_tld - ( xi * delta / ep ) * p;
                 q = z_tld - ( rho * delta / ep ) * q;
             } else {
@@ -640,7 +641,7 @@ impl Sparse<f64> {
 
             eta = -eta * rho_1 * gamma * gamma / ( beta * gamma_1 * gamma_1 );
 
-            if i > 1 {
+            if !fresh {
                 d = eta * p.clone() + ( theta_1 * theta_1 * gamma * gamma ) * d;
                 s = eta * p_tld.clone() + ( theta_1 * theta_1 * gamma * gamma ) * s;
             } else {
@@ -648,17 +649,35 @@ impl Sparse<f64> {
                 s = eta * p_tld.clone();
             }
 
+            // once the Krylov space is exhausted the step no longer changes x and the recurrence residual
+            // freezes, possibly above the residual x really has
+            let moved = d.vec.iter().zip( x.vec.iter() ).any( |( di, xi )| *xi + *di != *xi );
             *x += d.clone();
             r -= s.clone();
 
             resid = r.norm_2() / normb;
-            if resid <= tol {
+            if resid <= tol || !moved {
                 // The recurrence residual drifts and, after a near breakdown (ep or delta tiny but not
                 // exactly zero), is meaningless: confirm with the true residual and carry on from it
                 r = b.clone() - self.multiply( x );
                 resid = r.norm_2() / normb;
                 if resid <= tol && Self::all_finite( x ) { return Ok( i ); }
+                if !moved {
+                    // stagnation above the tolerance: restart the recurrences from the residual x really has
+                    v_tld = r.clone();
+                    y = v_tld.clone();
+                    rho = y.norm_2();
+                    w_tld = r.clone();
+                    z = w_tld.clone();
+                    xi = z.norm_2();
+                    gamma = 1.0;
+                    eta = -1.0;
+                    theta = 0.0;
+                    fresh = true;
+                    continue;
+                }
             }
+            fresh = false;
         }
         Err(resid)
     }
